@@ -165,11 +165,11 @@ PROFILES.update({
     "excl": {"cmds": ["start", "stop", "restart", "reload", "incr", "decr", "set_np", "kill"], "partial": 0.7,
              "hooks": ["before_start", "after_start", "before_spawn"], "faults": 0.2, "singleton": True,
              "deaths": False, "steps": 20},
-    "hooks": {"hooks": HOOK_NAMES[:8], "cmds": ["start", "stop", "restart", "signal", "kill", "reload"],
+    "hooks": {"sigkill": 0.35, "sighook": 0.4, "hooks": HOOK_NAMES[:8], "cmds": ["start", "stop", "restart", "signal", "kill", "reload"],
               "stubborn": 0.5, "steps": 16},
     "signals": {"watchers": 3, "stop_children": True, "fork": 0.25, "anypid": 0.7, "cmds": ["signal", "signal", "kill", "stop", "incr"],
                 "steps": 18},
-    "boot": {"watchers": 4, "autostart": True, "cmds": ["restart", "start", "stop"], "steps": 8, "kcall_deaths": 0.6,
+    "boot": {"watchers": 4, "autostart": True, "patterns": 0.5, "cmds": ["restart", "start", "stop"], "steps": 8, "kcall_deaths": 0.6,
              "check_delays": [1.0, 2.0]},
     "shutdown": {"dsig": 0.5, "cmds": ["quit", "stop", "restart", "incr", "kill", "status"], "stubborn": 0.4,
                  "partial": 0.4, "steps": 14, "xprobe": False},
@@ -341,3 +341,42 @@ def refusal(seed):
 
 
 PROFILES["refusal"] = refusal
+
+
+_HOOKS_BASE = PROFILES["hooks"]
+
+
+def hooks_profile(seed):
+    """Random hook scenarios, plus (every 4th seed) a template aimed at 'SIGKILL is always sent': a watcher whose
+    before_signal hook vetoes, and explicit signal / kill requests naming SIGKILL in several spellings."""
+    import random
+    if seed % 4 != 0:
+        return scenario.gen_scenario(seed, _HOOKS_BASE)
+    rng = random.Random(seed)
+    out = rng.choice(["false", "false", "raise"])
+    hooks = {"before_signal": (out, rng.random() < 0.3)}
+    if rng.random() < 0.5:
+        hooks["after_signal"] = (rng.choice(["true", "false"]), False)
+    ws = [{"name": "w1", "np": rng.choice([1, 2]), "G": rng.choice([0.1, 0.2]), "W": 0.0, "hooks": hooks},
+          {"name": "w2", "np": 1, "G": 0.1, "W": 0.0}]
+    s = [{"op": "boot"}, {"op": "tick", "n": rng.randint(2, 6)}]
+    for _ in range(rng.randint(2, 5)):
+        sig = rng.choice([scenario.SIGKILL, "kill", "SIGKILL", "9", scenario.SIGTERM, "hup"])
+        props = {"name": rng.choice(["w1", "w1", "w2"]), "signum": sig}
+        if rng.random() < 0.4:
+            props["pidsel"] = rng.randint(0, 2)
+        if rng.random() < 0.2:
+            props["recursive"] = True
+        s.append({"op": "req", "cmd": "signal", "props": props})
+        s.append({"op": "tick", "n": rng.randint(1, 4)})
+        if rng.random() < 0.3:
+            s.append({"op": "req", "cmd": "kill", "props": {"name": "w1", "signum": rng.choice([scenario.SIGKILL, "kill"]),
+                                                             "waiting": rng.random() < 0.5}})
+            s.append({"op": "tick", "n": rng.randint(1, 4)})
+    s.append({"op": "tick", "n": 8})
+    s.append({"op": "end", "xprobe": True, "passes": 1})
+    return {"seed": seed, "watchers": ws, "check_delay": 0.5, "warmup_delay": 0.0, "stubborn": [], "obeys": [True],
+            "instant_death": False, "script": s}
+
+
+PROFILES["hooks"] = hooks_profile
